@@ -588,6 +588,20 @@ func tinyRowCheck(k *lkey, sender *lkey, r *tinyRow, encTab map[[2]int64]int64, 
 					})
 				}
 			}
+			// Clone yields an independent value (the specification's operations are functions of values): operating on the
+			// clone - Add, Mul, Randomize all work in place - must leave the original ciphertext as it was
+			for _, v := range variants {
+				orig := ctOf(c)
+				other := ctOf(c)
+				msg, p := try(func() {
+					orig.Clone().Add(k.pks[v], other)
+					orig.Clone().Mul(k.pks[v], intOf(bi(2)))
+					orig.Clone().Randomize(k.pks[v], natOf(bi(2)))
+				})
+				ck(!p && eq(ctBig(orig), c) && eq(ctBig(other), c), "Clone", "aliases-original", func() D {
+					return D{"variant": v, "c": r.C, "after": s(ctBig(orig)), "operand_after": s(ctBig(other)), "panic": msg}
+				})
+			}
 			d, err := libDec(k.sk, c)
 			ck(err == nil, "Dec", "error-on-valid", func() D { return D{"c": r.C, "err": fmt.Sprint(err)} })
 			if err == nil {
